@@ -75,11 +75,11 @@ func parseSuper(blob []byte) (magic csMagic, items []superItem, err error) {
 		itype := binary.BigEndian.Uint32(indexes[8*i:])
 		offset := int(binary.BigEndian.Uint32(indexes[4+8*i:]))
 		offset -= dataOffset
-		if offset > len(blob)-8 {
+		if offset < 0 || offset > len(blob)-8 {
 			return 0, nil, errShort
 		}
 		length := int(binary.BigEndian.Uint32(blob[offset+4:]))
-		if offset+length > len(blob) {
+		if length < 8 || offset+length > len(blob) {
 			return 0, nil, errShort
 		}
 		items = append(items, superItem{
